@@ -1,6 +1,8 @@
-(* c15 model driver.  input: <D|R> <facts>\t<modelled view of the real JSON (compact, UTF-8)>
-   (facts format: harness/src/bin/c15.rs).  output: <model's serialisation, UTF-8 | P;;>\t<1|0: the
-   model's parser accepts the real view and re-serialises it to the same code points> *)
+(* c15 model driver.  input: <D|R> <facts>\t<view of the real JSON (compact, UTF-8)>
+   (facts format: harness/src/bin/c15.rs).  output:
+   <model's serialisation, UTF-8 | P;;>\t<1|0: the model's parser accepts the real view and re-serialises it to the
+   same code points>\t<model confidence bits of the bit flips, joined by ,>\t<1|0: wf_ok st>\t<1|0: real_conforms
+   on the code points of the real view> *)
 let utf8_encode (b : Buffer.t) (c : int) =
   if c < 0x80 then Buffer.add_char b (Char.chr c)
   else if c < 0x800 then (Buffer.add_char b (Char.chr (0xC0 lor (c lsr 6))); Buffer.add_char b (Char.chr (0x80 lor (c land 0x3F))))
@@ -95,12 +97,50 @@ let () =
           let i = str_of_tok t in let r = str_of_tok (next ()) in let c = str_of_tok (next ()) in let d = str_of_tok (next ()) in
           Some (((i, r), c), d)) in
         expect "MAPC"; let mapc = onum () in
-        expect "CERT"; let cert = (next () = "1") in
+        let str () = str_of_tok (next ()) in
+        let count () = int_of_string (next ()) in
+        let ocount () = let t = next () in if t = "-" then None else Some (int_of_string t) in
+        expect "CERTS";
+        let nc = count () in
+        let certs = List.init nc (fun _ -> let n = str () in let sj = str () in (n, sj)) in
+        expect "STATS";
+        let ns = count () in
+        let stats = List.init ns (fun _ ->
+          let n = str () in let url = ostr () in let ld = next () in let co = next () in
+          let extra = (match next () with
+            | "-" -> None
+            | "X" -> let df = str () in let di = str () in Some (df, di)
+            | t -> failwith ("STATS: expected X or - got " ^ t)) in
+          (n, { ss_url = url; ss_loaded = (ld = "1"); ss_corrupt = (co = "1"); ss_extra = extra })) in
+        expect "ASSERT"; let assertion = ostr () in
+        expect "LIMITS";
+        let lim () = (match next () with "e" -> LErr | "u" -> LUnlimited | t -> LLimited (z_of_string t)) in
+        let limits = (match ocount () with
+          | None -> None
+          | Some n -> Some (List.init n (fun _ ->
+              let nm = str () in let so = lim () in let ha = lim () in let un = str () in
+              { li_name = nm; li_soft = so; li_hard = ha; li_unit = un }))) in
+        expect "MAC";
+        let mac = (match ocount () with
+          | None -> None
+          | Some n -> Some (List.init n (fun _ ->
+              let th = onum () in let dm = onum () in let ac = onum () in
+              let mp = ostr () in let ms = ostr () in let sg = ostr () in let bt = ostr () in let m2 = ostr () in
+              { mc_thread = th; mc_dialog = dm; mc_abort = ac; mc_module = mp; mc_message = ms; mc_signature = sg;
+                mc_backtrace = bt; mc_message2 = m2 }))) in
+        expect "BOOT"; let bootargs = ostr () in
+        expect "HANDLES";
+        let handles = (match ocount () with
+          | None -> None
+          | Some n -> Some (List.init n (fun _ ->
+              let h = onum () in let tn = ostr () in let on = ostr () in
+              { h_handle = h; h_type = tn; h_object = on }))) in
         expect "TH";
         let n = int_of_string (next ()) in
         let threads = List.init n (fun _ ->
           let id = nz () in
           let name = ostr () in
+          let lasterr = ostr () in
           expect "NF";
           let nf = int_of_string (next ()) in
           let frames = List.init nf (fun _ ->
@@ -119,34 +159,50 @@ let () =
               let k = int_of_string (next ()) in
               let offs = List.init k (fun _ -> nz ()) in
               (nm, offs)) in
+            expect "INL";
+            let q = int_of_string (next ()) in
+            let inl = List.init q (fun _ ->
+              let fnm = str_of_tok (next ()) in let fl = ostr () in let li = onum () in
+              { in_function = fnm; in_file = fl; in_line = li }) in
             { fr_instr = instr; fr_module = md; fr_function = fn; fr_function_base = fb; fr_file = file;
-              fr_line = ln; fr_trust = trust; fr_unloaded = unl }) in
-          { th_id = id; th_name = name; th_frames = frames }) in
+              fr_line = ln; fr_trust = trust; fr_unloaded = unl; fr_inlines = inl }) in
+          { th_id = id; th_name = name; th_last_error = lasterr; th_frames = frames }) in
         expect "REGS";
         let r = int_of_string (next ()) in
         let regs = List.init r (fun _ ->
           let nm = str_of_tok (next ()) in let v = nz () in let d = int_of_string (next ()) in ((nm, v), nat_of_int d)) in
         expect "MODS";
         let m = int_of_string (next ()) in
-        let mods = List.init m (fun _ -> let b = nz () in let s = nz () in let nm = str_of_tok (next ()) in
-                                         { m_base = b; m_size = s; m_name = nm }) in
+        let mods = List.init m (fun _ ->
+          let b = nz () in let s = nz () in let cf = str () in let df = str () in let di = str () in
+          let ci = str () in let ver = ostr () in
+          { m_base = b; m_size = s; m_file = cf; m_debug_file = df; m_debug_id = di; m_code_id = ci; m_version = ver }) in
         expect "UNLM";
         let u = int_of_string (next ()) in
-        let unl = List.init u (fun _ -> let b = nz () in let s = nz () in let nm = str_of_tok (next ()) in
-                                        { m_base = b; m_size = s; m_name = nm }) in
+        let unl = List.init u (fun _ ->
+          let b = nz () in let s = nz () in let nm = str () in let ci = str () in
+          { m_base = b; m_size = s; m_file = nm; m_debug_file = []; m_debug_id = []; m_code_id = ci; m_version = None }) in
+        if !pos <> Array.length toks then failwith ("trailing facts token " ^ toks.(!pos));
         let st = { s_width = w; s_pid = pid; s_threads = threads; s_requesting = req; s_registers = regs;
-                   s_modules = mods; s_unloaded = unl; s_crash = crash; s_sys = sys; s_lsb = lsb; s_mapcount = mapc; s_cert = cert } in
+                   s_modules = mods; s_unloaded = unl; s_crash = crash; s_sys = sys; s_lsb = lsb; s_mapcount = mapc;
+                   s_certinfo = certs; s_symstats = stats; s_assertion = assertion; s_limits = limits; s_mac_crash = mac;
+                   s_bootargs = bootargs; s_handles = handles } in
         let b = Buffer.create 4096 in
         (match run_state prof st with
          | Some cps -> List.iter (fun c -> utf8_encode b (int_of_z c)) cps
          | None -> Buffer.add_string b "P;;");
-        let ok = reparse_ok (List.map z_of_int (utf8_decode real_view)) in
+        let real_cps = List.map z_of_int (utf8_decode real_view) in
+        let ok = reparse_ok real_cps in
         Buffer.add_char b '\t';
         Buffer.add_string b (if ok then "1" else "0");
         Buffer.add_char b '\t';
         (match crash with
          | Some c -> Buffer.add_string b (String.concat "," (List.map (fun f -> string_of_z (flip_confidence_bits f)) c.cr_flips))
          | None -> ());
+        Buffer.add_char b '\t';
+        Buffer.add_string b (if wf_ok st then "1" else "0");
+        Buffer.add_char b '\t';
+        Buffer.add_string b (if real_conforms real_cps then "1" else "0");
         print_endline (Buffer.contents b)
       end
     done
